@@ -56,6 +56,10 @@ def driver_text(c, ops):
     sn = {"": "", "SIGINT": "2", "SIGTERM": "15", "SIGKILL": "9", "SIGQUIT": "3", "SIGUSR1": "10", "SIGUSR2": "12"}
     L = ["case id %s n %d max %d dry %d h %s" % (c["id"], n, c["maxActive"], 1 if c.get("dry") else 0,
                                                   ",".join(str(h) for h in c["handlers"]))]
+    if c.get("init") is not None:
+        L[0] += " init %s irc %s idc %s" % (",".join(str(ST_CODE[x]) for x in c["init"]),
+                                            ",".join(map(str, c.get("irc") or [0] * n)),
+                                            ",".join(map(str, c.get("idc") or [0] * n)))
     for nd in c["nodes"]:
         L.append("node deps %s cf %d cs %d limit %d pre %d rep %d obeys %d sig %s" % (
             ",".join(map(str, nd["deps"])) or "-", nd["cf"], nd["cs"], nd["limit"], nd["pre"], nd.get("rep", False), nd["obeys"],
@@ -66,8 +70,13 @@ def driver_text(c, ops):
     return L
 
 
+ST_CODE = {"not started": 0, "running": 1, "failed": 2, "canceled": 3, "finished": 4, "skipped": 5}
+
+
 def impl_snaps(r):
     out = []
+    if r.get("st0"):
+        out.append("init st=%s rc=%s" % ("|".join(r["st0"]), ",".join(map(str, r.get("rc0") or []))))
     for s in r["snaps"]:
         out.append("snap st=%s rc=%s dc=%s fl=%s ov=%s pp=%s" % ("|".join(s["st"] or []), ",".join(map(str, s["rc"] or [])),
                                                             ",".join(map(str, s["dc"] or [])),
@@ -207,7 +216,8 @@ def run_stream(chk, prop, replay=None):
     if rc != 0:
         chk.oblige("driver-run:sched", False, derr[-2000:])
     persistent = []
-    for c in dis:
+    chk.disagreements += max(0, len(dis) - 20)
+    for c in dis[:20]:
         chk.disagreements += 1
         why = None
         for attempt in range(3):           # timing: a scan racing with a completion can reorder launches under a limit
